@@ -1,0 +1,17 @@
+//go:build verif
+
+// Contracts for the deductive checker in /verif (read only with -tags verif).
+
+package sm3
+
+//@ pred sm3byte(W, j) := (W[j / 4] / pow2(24 - 8 * (j % 4))) % 256
+
+// Sum: the digest of exactly the bytes of data
+//@ func Sum property C01
+//@   requires len(data) < 2305843009213693000
+//@   let DA := arr(data)
+//@   let DO := offof(data)
+//@   let DL := len(data)
+//@   ensures forall b :: 0 <= b && b < 32 ==> result[b] == sm3byte(SM3W(CAT(ZEROARR(), 0, DA, DO, DL), DL), b)
+//@   modifies nothing
+//@   apply after call Write#1: sm3w_ext(ghost(dmsg, as(h, sm3.digest)), CAT(ZEROARR(), 0, DA, DO, DL), DL)
